@@ -267,19 +267,24 @@ func runC04(c *Ctx) {
 		c.Unresolved("C04.T2", "(*Parser).GetRevealValue / GetCommitment / ParseOperation")
 		return
 	}
+	// the parse call may sit in a shared unexported helper; values are named after the expression that produced them
+	c.inlineHelpers = true
+	defer func() { c.inlineHelpers = false }()
 	for _, f := range []*ssa.Function{grv, gcm} {
 		c.Analysed(f)
-		pcs := callsTo(f, po)
-		if len(pcs) != 1 {
-			c.Check("C04.T2", f.Name()+":parse-call", false, f.Pos(), fmt.Sprintf("expected one ParseOperation call, found %d", len(pcs)))
+		tcs := c.treeCalls(f, nil, 0, func(cl *ssa.Call, env Env) bool { return cl.Call.StaticCallee() == po })
+		if len(tcs) != 1 {
+			c.Check("C04.T2", f.Name()+":parse-call", false, f.Pos(), fmt.Sprintf("expected one ParseOperation call, found %d", len(tcs)))
 			continue
 		}
+		pcs := []*ssa.Call{tcs[0].call}
+		penv := tcs[0].env
 		a := declArgs(pcs[0])
-		c.Check("C04.T2", f.Name()+":parses-its-argument", c.Path(a[1], nil) == "$1", pcs[0].Pos(), "ParseOperation is applied to the operation bytes parameter ("+c.Path(a[1], nil)+")")
+		c.Check("C04.T2", f.Name()+":parses-its-argument", c.Path(a[1], penv) == "$1", pcs[0].Pos(), "ParseOperation is applied to the operation bytes parameter ("+c.Path(a[1], penv)+")")
 		// both accessors read anchored operations: batch mode (request-time validators — anchoring window against the
 		// clock, anchor origin, delta validation — would make the reported values depend on when and where they are read)
-		c.Check("C04.T2", f.Name()+":parses-in-batch-mode", len(a) == 3 && c.Path(a[2], nil) == "true", pcs[0].Pos(), "ParseOperation is called in batch mode ("+c.Path(a[len(a)-1], nil)+")")
-		X := c.Path(pcs[0], nil) + "#0"
+		c.Check("C04.T2", f.Name()+":parses-in-batch-mode", len(a) == 3 && c.Path(a[2], penv) == "true", pcs[0].Pos(), "ParseOperation is called in batch mode ("+c.Path(a[len(a)-1], penv)+")")
+		X := c.Path(pcs[0], penv) + "#0"
 		chkParse := &GCheck{Name: "ParseOperation succeeded", MatchCall: func(c *Ctx, call *ssa.Call, env Env) bool { return call == pcs[0] }}
 		c.CheckGuard("C04.T2", f.Name()+":requires-parse", f, nil, chkParse)
 		if f == grv {
